@@ -1169,6 +1169,11 @@ def c19(tier):
         if i % 3 == 2:      # a sink that accepts only a few bytes per write: the stored name must arrive whole all the same
             sc_["short_w_max"] = rnd.choice([1, 3, 7, 45, 46, 47])
         ws.append(sc_)
+    # non-ASCII names in headers of more than 64 KiB (name and extra field each representable, together beyond 65 535 bytes)
+    for j, (nlen, xlen) in enumerate([(40000, 30004), (65534, 60000)]):
+        ws.append({"sc": "wn-long%d" % j, "ops": [{"op": "New"}, {"op": "StartFileExtra", "name": {"rep": "é", "n": nlen}, "method": 8},
+                                                   {"op": "WriteExtra", "recs": [{"id": 0xbeef, "dsz": xlen - 4}]}, {"op": "EndExtra"}, {"op": "Write", "data": "z"},
+                                                   {"op": "StartFile", "name": "ü-after", "method": 0}, {"op": "Write", "data": "y"}, {"op": "Finish"}]})
     run_writer_programs(rep, wd, ws, "writer-names", neg_control=False)
     return rep.finish("model_checking",
                       "MC_Encoding: laws of the decoding operators over all 1- and 2-byte strings; binding: every byte value x flag x "
